@@ -1,0 +1,22 @@
+//go:build verif
+
+package announcequeue
+
+import "github.com/uber/kraken/core"
+
+// VerifSnapshot returns the torrents waiting in the ready queue (front first) and
+// the torrents marked as having an announce in flight. For the verification
+// harness only (build tag verif).
+func (q *QueueImpl) VerifSnapshot() (ready []core.InfoHash, pending []core.InfoHash) {
+	for e := q.readyQueue.Front(); e != nil; e = e.Next() {
+		if h, ok := e.Value.(core.InfoHash); ok {
+			ready = append(ready, h)
+		}
+	}
+	for h, p := range q.pending {
+		if p {
+			pending = append(pending, h)
+		}
+	}
+	return ready, pending
+}
